@@ -163,9 +163,19 @@ CLAIMS = {
         note=NOTE_BASE,
         technique="static analysis: delegation table, canonical-form equality of sibling pipelines, typestate of the index vector",
     ),
+    "C15": dict(
+        category="other",
+        text="Static decision of ONE clause of C15 – partition_mut never panics for an in-range pivot position, including length 1 – by a "
+             "zone (difference-bound) abstract interpretation of its MIR under the precondition pivot_index < len: every overflow assert "
+             "and every Index/swap bounds precondition is discharged by the computed invariants, for all array contents (comparisons are "
+             "non-deterministic). The rank/ordering postconditions are value-level and are NOT decided (static analysis cannot reach them "
+             "without an array-content domain).",
+        design_ref="DESIGN.md §4 C15",
+        note=NOTE_BASE + " Callee contracts: len() ≤ isize::MAX; Index/swap panic iff index ≥ len.",
+        technique="static analysis: abstract interpretation (zone domain with widening/narrowing) over MIR",
+    ),
 }
 
-PENDING = "not yet claimed in this revision: the static rule set for it is still being implemented (see DESIGN.md §8); no check is registered rather than a weak one"
 
 NOT_APPLICABLE = {
     "C01": "static analysis cannot decide it: the value of a quantile for every lane content, q and pivot sequence is a runtime quantity; no rule over the code's shape decides floor/ceil((N-1)q) float arithmetic or the correctness of selection (DESIGN.md §4 C01)",
@@ -173,9 +183,6 @@ NOT_APPLICABLE = {
     "C08": "static analysis cannot decide it: agreement with the definition within a roundoff bound, symmetry, [-1,1] range and affine invariances are numerical statements about runtime values (DESIGN.md §4 C08)",
     "C19": "static analysis cannot decide it: monotonicity in q, ordering between strategies and permutation/relabelling invariance relate values of several runs; nothing in the code's shape decides them short of proving C01/C02 (DESIGN.md §4 C19)",
 }
-for _p in ("C03", "C04", "C05", "C06", "C07", "C09", "C10", "C11", "C12", "C13", "C14", "C15", "C16", "C17", "C18"):
-    if _p not in CLAIMS:
-        NOT_APPLICABLE[_p] = PENDING
 
 NOTES = ("Technique family: static analysis only. Every check re-extracts MIR facts from /repo's working tree with a rustc_private "
          "driver and decides repository-specific rules over them; no test of the crate is run, nothing is executed or solved "
